@@ -208,7 +208,7 @@ func concrete(segs []string, g *graph) string {
 	}
 	return reNodeRef.ReplaceAllStringFunc(s, func(m string) string {
 		if o, ok := g.objs[m[1:]]; ok {
-			return strings.TrimPrefix(o.dig, "sha256:")
+			return o.hex()
 		}
 		return m
 	})
